@@ -126,8 +126,11 @@ type Evaluator struct {
 	// Trace records every uninterpreted call (callee outside the module, dynamic callee, interface method on an
 	// opaque receiver) in evaluation order.
 	Trace []string
-	depth int
-	ncell int
+	// GlobalInit, when set, resolves a package-level variable ("pkg.name") to its initial value — used for literal
+	// tables of constants that nothing writes after initialisation (the caller establishes that).
+	GlobalInit func(name string) (Val, bool)
+	depth      int
+	ncell      int
 }
 
 type Outcome struct {
@@ -350,6 +353,11 @@ func (ev *Evaluator) load(a Val, pos token.Pos) (Val, error) {
 		return v, nil
 	case Sym:
 		if strings.HasPrefix(p.Name, "&") { // global
+			if ev.GlobalInit != nil {
+				if v, ok := ev.GlobalInit(p.Name[1:]); ok {
+					return v, nil
+				}
+			}
 			return Sym{"*" + p.Name[1:]}, nil
 		}
 		return Sym{"*" + p.Name}, nil
@@ -609,6 +617,18 @@ func (ev *Evaluator) instr(env map[ssa.Value]Val, in ssa.Value) (Val, error) {
 				return Ptr{Cell: sv.Elems[i]}, nil
 			}
 		}
+		// element of a package-level array table
+		if g, ok := x.(Sym); ok && strings.HasPrefix(g.Name, "&") && ev.GlobalInit != nil {
+			if v, ok := ev.GlobalInit(g.Name[1:]); ok {
+				if av, ok := v.(*ArrayV); ok {
+					if c, ok := idx.(Const); ok && c.V != nil {
+						if i, exact := constant.Int64Val(c.V); exact && av.Elems[i] != nil {
+							return Ptr{Cell: av.Elems[i]}, nil
+						}
+					}
+				}
+			}
+		}
 		// model arrays allocated locally (varargs) as cells per index
 		if p, ok := x.(Ptr); ok && p.Cell != nil {
 			if c, ok := idx.(Const); ok {
@@ -642,6 +662,16 @@ func (ev *Evaluator) instr(env map[ssa.Value]Val, in ssa.Value) (Val, error) {
 				str := constant.StringVal(cs.V)
 				if i, _ := constant.Int64Val(c.V); i >= 0 && i < int64(len(str)) {
 					return Const{constant.MakeInt64(int64(str[i]))}, nil
+				}
+			}
+		}
+		// element of an array value with a constant index
+		if av, ok := x.(*ArrayV); ok {
+			if c, ok := idx.(Const); ok && c.V != nil {
+				if i, exact := constant.Int64Val(c.V); exact {
+					if cell := av.Elems[i]; cell != nil {
+						return cell.V, nil
+					}
 				}
 			}
 		}
@@ -704,7 +734,26 @@ func (ev *Evaluator) binop(op token.Token, x, y Val, pos token.Pos) (Val, error)
 		}
 		return Const{constant.BinaryOp(cx.V, op, cy.V)}, nil
 	}
+	if isCmp && okx && !oky {
+		// constant on the left (`0 == x`, `0 < len(s)`): normalise to the mirrored comparison with the constant on the right
+		x, y = y, x
+		cx, cy, okx, oky = cy, cx, oky, okx
+		switch op {
+		case token.LSS:
+			op = token.GTR
+		case token.GTR:
+			op = token.LSS
+		case token.LEQ:
+			op = token.GEQ
+		case token.GEQ:
+			op = token.LEQ
+		}
+	}
 	if isCmp {
+		// interval values
+		if r, ok := rangeCmp(op, x, y); ok {
+			return Const{constant.MakeBool(r)}, nil
+		}
 		// pointer vs nil
 		if px, ok := x.(Ptr); ok && oky && cy.V == nil {
 			isNil := px.Cell == nil
@@ -740,8 +789,119 @@ func (ev *Evaluator) binop(op token.Token, x, y Val, pos token.Pos) (Val, error)
 		}
 		return Const{constant.MakeBool(r)}, nil
 	}
+	if r, ok := rangeArith(op, x, y); ok {
+		return r, nil
+	}
 	// symbolic arithmetic: keep as term
 	return Term{Fn: op.String(), Args: []Val{x, y}}, nil
+}
+
+// IntRange is an integer known only to lie in [Lo, Hi] (result of a summary such as a bit count).
+type IntRange struct{ Lo, Hi int64 }
+
+func (r IntRange) String() string { return fmt.Sprintf("[%d..%d]", r.Lo, r.Hi) }
+
+func asRange(v Val) (IntRange, bool) {
+	switch x := v.(type) {
+	case IntRange:
+		return x, true
+	case Const:
+		if x.V != nil && x.V.Kind() == constant.Int {
+			if k, exact := constant.Int64Val(x.V); exact {
+				return IntRange{k, k}, true
+			}
+		}
+	}
+	return IntRange{}, false
+}
+
+// rangeArith: +, -, *, / of an interval and a constant (or two intervals); collapses to a constant when exact.
+func rangeArith(op token.Token, x, y Val) (Val, bool) {
+	_, xr := x.(IntRange)
+	_, yr := y.(IntRange)
+	if !xr && !yr {
+		return nil, false
+	}
+	a, ok1 := asRange(x)
+	b, ok2 := asRange(y)
+	if !ok1 || !ok2 {
+		return nil, false
+	}
+	var r IntRange
+	switch op {
+	case token.ADD:
+		r = IntRange{a.Lo + b.Lo, a.Hi + b.Hi}
+	case token.SUB:
+		r = IntRange{a.Lo - b.Hi, a.Hi - b.Lo}
+	case token.MUL:
+		if a.Lo < 0 || b.Lo < 0 {
+			return nil, false
+		}
+		r = IntRange{a.Lo * b.Lo, a.Hi * b.Hi}
+	case token.QUO:
+		if a.Lo < 0 || b.Lo <= 0 {
+			return nil, false
+		}
+		r = IntRange{a.Lo / b.Hi, a.Hi / b.Lo}
+	default:
+		return nil, false
+	}
+	if r.Lo == r.Hi {
+		return Const{constant.MakeInt64(r.Lo)}, true
+	}
+	return r, true
+}
+
+// rangeCmp decides a comparison involving an interval when it holds (or fails) for every member.
+func rangeCmp(op token.Token, x, y Val) (result, ok bool) {
+	_, xr := x.(IntRange)
+	_, yr := y.(IntRange)
+	if !xr && !yr {
+		return false, false
+	}
+	a, ok1 := asRange(x)
+	b, ok2 := asRange(y)
+	if !ok1 || !ok2 {
+		return false, false
+	}
+	switch op {
+	case token.LSS:
+		if a.Hi < b.Lo {
+			return true, true
+		}
+		if a.Lo >= b.Hi {
+			return false, true
+		}
+	case token.LEQ:
+		if a.Hi <= b.Lo {
+			return true, true
+		}
+		if a.Lo > b.Hi {
+			return false, true
+		}
+	case token.GTR:
+		if a.Lo > b.Hi {
+			return true, true
+		}
+		if a.Hi <= b.Lo {
+			return false, true
+		}
+	case token.GEQ:
+		if a.Lo >= b.Hi {
+			return true, true
+		}
+		if a.Hi < b.Lo {
+			return false, true
+		}
+	case token.EQL, token.NEQ:
+		if a.Hi < b.Lo || a.Lo > b.Hi {
+			return op == token.NEQ, true
+		}
+		if a.Lo == a.Hi && b.Lo == b.Hi {
+			return (op == token.EQL) == (a.Lo == b.Lo), true
+		}
+	}
+	return false, false
 }
 
 func (ev *Evaluator) call(env map[ssa.Value]Val, in *ssa.Call) (Val, error) {
